@@ -185,7 +185,7 @@ func cmdCheck(args []string) int {
 	} else {
 		fmt.Fprintln(os.Stderr, "queries kept in", scratchDir)
 	}
-	timeoutS := 10
+	timeoutS := 20 // wall-clock per solver; generous so that a loaded machine does not turn a 3 s proof into a timeout
 	if *tier == "thorough" {
 		timeoutS = 60
 	}
